@@ -350,6 +350,78 @@ impl<V> VerifMap<V> {
 MAP_PATCH = (SAMPLE, r"pub alloc_info_by_sample: HashMap<u32, ThreadAllocInfo>,", "pub alloc_info_by_sample: VerifMap<ThreadAllocInfo>,", 1)
 
 
+def store_shim(S: Sources) -> str:
+    """The part of bench_loop_threaded that stores a round's samples (from the definition of the closure
+    sample_duration_sub_overhead to the end of the per-sample loop), text copied on every run into a method of the
+    scratch copy so that a Kani harness can run it; the locals it reads become parameters."""
+    b = S(BENCH)
+    f = b.find_fn("bench_loop_threaded", impl=r"impl<'a> BenchContext<'a>")
+    txt, _ = rsx.region(f, r"let sample_duration_sub_overhead = \| raw_sample : & RawSample \| \{", r"if let Some \( initial_start \) = initial_start \{", include_end=False)
+    return """
+#[cfg(kani)]
+impl<'a> BenchContext<'a> {
+    /// (text of bench_loop_threaded, see units/C05.py store_shim)
+    fn verif_store_round(&mut self, raw_samples: &[RawSample], sample_size: u32, timer_precision: FineDuration,
+                         bench_overheads: &crate::time::TimedOverhead, mut rem_samples: Option<u32>) -> Option<u32> {
+""" + txt + """
+        rem_samples
+    }
+}
+"""
+
+
+KANI_STORE = r"""
+#[cfg(kani)]
+mod verif_c05_store {
+    use super::*;
+    use crate::{config::Action, time::{Timer, TimedOverhead, TscTimestamp}, util::thread::ThreadPool};
+    use std::num::{NonZeroU64, NonZeroUsize};
+    fn zeroed_random_state() -> std::hash::RandomState { unsafe { std::mem::zeroed() } }
+    fn raw(start: u64, end: u64, alloc_bytes: usize) -> RawSample {
+        let mut info = ThreadAllocInfo::new();
+        if alloc_bytes > 0 { info.tally_alloc(alloc_bytes); }
+        RawSample {
+            start: Timestamp::Tsc(TscTimestamp { value: start }), end: Timestamp::Tsc(TscTimestamp { value: end }),
+            timer: Timer::Tsc { frequency: NonZeroU64::new(1_000_000_000_000).unwrap() },
+            alloc_info: info, counter_totals: [0; KnownCounterKind::COUNT],
+        }
+    }
+    /// Two rounds of two threads: sample k's allocation info is stored under key k (the index of its timing), a
+    /// sample without allocations gets no entry, and the remaining-sample counter goes down by one per sample.
+    #[kani::proof]
+    #[kani::unwind(6)]
+    #[kani::stub(std::hash::RandomState::new, zeroed_random_state)]
+    fn samples_stored_under_their_own_index() {
+        let sh = SharedContext { action: Action::Bench, timer: Timer::Os, thread_pool: ThreadPool::new() };
+        let o = BenchOptions::default();
+        let mut cx = BenchContext::new(&sh, &o, NonZeroUsize::new(2).unwrap());
+        cx.samples.sample_size = 1;
+        let quiet: usize = kani::any(); kani::assume(quiet < 5);         // which sample (if any) made no allocation
+        let bytes = |k: usize| if k == quiet { 0 } else { 100 + k };
+        let prec = FineDuration { picos: 1 };
+        let r1 = [raw(0, 10, bytes(0)), raw(0, 20, bytes(1))];
+        let rem = cx.verif_store_round(&r1, 1, prec, &TimedOverhead::ZERO, Some(10));
+        let r2 = [raw(30, 60, bytes(2)), raw(30, 70, bytes(3))];
+        let rem = cx.verif_store_round(&r2, 1, prec, &TimedOverhead::ZERO, rem);
+        assert!(cx.samples.time_samples.len() == 4, "[C05] one timing per sample");
+        assert!(rem == Some(6), "[C03] the remaining-sample counter goes down by one per recorded sample");
+        let want_time = [10u128, 20, 30, 40];
+        let mut k = 0;
+        while k < 4 {
+            assert!(cx.samples.time_samples[k].duration.picos == want_time[k], "[C05] timings are stored in sample order");
+            match cx.samples.alloc_info_by_sample.get(&(k as u32)) {
+                Some(info) => assert!(k != quiet && info.tallies.get(AllocOp::Alloc).size == (100 + k) as crate::alloc::ThreadAllocCount && info.tallies.get(AllocOp::Alloc).count == 1,
+                                      "[C05] a sample's allocation figures are stored under the index of its own timing"),
+                None => assert!(k == quiet, "[C05] every sample that allocated has its allocation figures stored under its own index"),
+            }
+            k += 1;
+        }
+        kani::cover!(quiet == 4); kani::cover!(quiet == 1);
+    }
+}
+"""
+
+
 def build(S: Sources, tier="quick") -> Unit:
     errs = []
     vfiles = guarded(lambda: verus_files(S), errs, [])
@@ -358,22 +430,29 @@ def build(S: Sources, tier="quick") -> Unit:
         KaniHarness("verif_c05_util::slice_ptr_index_roundtrip", "complete", covers="util::slice_ptr_index(slice, &slice[i]) == i"),
         KaniHarness("verif_c05_fd::clamp_to", "complete", covers="FineDuration::clamp_to / clamp_to_min"),
     ]
-    for n, s, tier in [(0, 0, "quick"), (0, 5, "quick"), (1, 1, "quick"), (1, 3, "quick"), (2, 3, "thorough"), (3, 1, "thorough"), (3, 3, "thorough"), (4, 3, "thorough")]:
+    for n, s, tier in [(0, 0, "quick"), (0, 5, "quick"), (1, 1, "quick"), (1, 3, "quick"), (2, 3, "thorough"), (3, 1, "thorough"), (3, 3, "experimental"), (4, 3, "experimental")]:
         hs.append(KaniHarness(f"verif_c05::time_n{n}_s{s}", "bounded", bound=f"exactly {n} samples, sample_size {s}, symbolic u128 durations",
                               covers="BenchContext::compute_stats (time statistics, NaN freedom, no panic)", tier=tier))
     for n, tier in [(1, "quick"), (2, "quick"), (3, "thorough")]:
         hs.append(KaniHarness(f"verif_c05::attr_alloc_n{n}_s2", "bounded", bound=f"exactly {n} samples in a symbolic order, concrete distinct tallies, sample_size 2",
                               covers="BenchContext::compute_stats (allocation figures belong to the samples that supplied the time)", tier=tier))
-    for n, tier in [(1, "thorough"), (2, "thorough")]:
+    for n, tier in [(1, "experimental"), (2, "experimental")]:
         hs.append(KaniHarness(f"verif_c05::attr_n{n}_s2", "bounded", bound=f"exactly {n} samples in a symbolic order, concrete distinct tallies and counter values, sample_size 2 (> 20 min each)",
                               covers="BenchContext::compute_stats (allocation and per-input counter figures belong to the samples that supplied the time)", tier=tier))
+    shim = guarded(lambda: store_shim(S), errs, None)
+    if shim is not None:
+        hs.append(KaniHarness("verif_c05_store::samples_stored_under_their_own_index", "bounded", bound="two rounds of two threads; at most one sample without allocations",
+                              covers="bench_loop_threaded: storing a round's samples (region run through a shim method holding its text)"))
+    spec = KaniSpec(injections={UTIL: KANI_UTIL, FD: KANI_FD, BENCH: KANI_BENCH + (shim + KANI_STORE if shim is not None else ""), SAMPLE: KANI_MAP}, harnesses=hs, patches=[MAP_PATCH], timeout_s=3600,
+                      stubs_note=["std::hash::RandomState::new -> all-zero keys (the thread pool's HashMap seeding needs the getrandom FFI)",
+                                  "scratch-copy addition: method verif_store_round holding the text of bench_loop_threaded from the sample_duration_sub_overhead closure to the end of the per-sample loop",
+                                  "scratch-copy patch: SampleCollection::alloc_info_by_sample: HashMap<u32, _> -> a four-slot association list with the same "
+                                  "insert/get/values/clear meaning (std HashMap assumed correct; CBMC needs ~5 min per HashMap insert)"])
+    spec.tag = "C05"      # assertions tagged with another property (the store shim's remaining-sample counter: C03) do not alarm here
     return Unit(
         property_id="C05",
         verus=vfiles,
-        kani=KaniSpec(injections={UTIL: KANI_UTIL, FD: KANI_FD, BENCH: KANI_BENCH, SAMPLE: KANI_MAP}, harnesses=hs, patches=[MAP_PATCH],
-                      stubs_note=["std::hash::RandomState::new -> all-zero keys (the thread pool's HashMap seeding needs the getrandom FFI)",
-                                  "scratch-copy patch: SampleCollection::alloc_info_by_sample: HashMap<u32, _> -> a four-slot association list with the same "
-                                  "insert/get/values/clear meaning (std HashMap assumed correct; CBMC needs ~5 min per HashMap insert)"]),
+        kani=spec,
         build_errors=errs,
         undecided_clauses=[
             "more than 4 samples: compute_stats is closure/iterator code outside Verus; the sort it relies on (slice::sort_unstable_by_key) is std",
